@@ -184,17 +184,38 @@ pub fn near(a: &str, b: &str) -> bool {
 	if a.len().abs_diff(b.len()) > 2 {
 		return false;
 	}
-	// banded DP
-	let mut prev: Vec<usize> = (0..=b.len()).collect();
-	for i in 1..=a.len() {
-		let mut cur = vec![i; b.len() + 1];
-		for j in 1..=b.len() {
-			let cost = if a[i - 1] == b[j - 1] { 0 } else { 1 };
-			cur[j] = (prev[j] + 1).min(cur[j - 1] + 1).min(prev[j - 1] + cost);
+	// edit distance <= 2, computed on the band |i - j| <= 2 only: row i holds d(i, j) for j = i - 2 ..= i + 2
+	const BIG: usize = usize::MAX / 4;
+	let (n, m) = (a.len() as isize, b.len() as isize);
+	let mut prev = [BIG; 5];
+	for k in 0..5isize {
+		let j = k - 2;
+		if j >= 0 && j <= m {
+			prev[k as usize] = j as usize;
+		}
+	}
+	for i in 1..=n {
+		let mut cur = [BIG; 5];
+		for k in 0..5isize {
+			let j = i + k - 2;
+			if j < 0 || j > m {
+				continue;
+			}
+			if j == 0 {
+				cur[k as usize] = i as usize;
+				continue;
+			}
+			let cost = if a[(i - 1) as usize] == b[(j - 1) as usize] { 0 } else { 1 };
+			// d(i-1, j) is prev[k+1]; d(i, j-1) is cur[k-1]; d(i-1, j-1) is prev[k]
+			let up = if k + 1 < 5 { prev[(k + 1) as usize] } else { BIG };
+			let left = if k >= 1 { cur[(k - 1) as usize] } else { BIG };
+			let diag = prev[k as usize];
+			cur[k as usize] = (up.saturating_add(1)).min(left.saturating_add(1)).min(diag.saturating_add(cost));
 		}
 		prev = cur;
 	}
-	prev[b.len()] <= 2
+	let k = m - n + 2;
+	(0..5).contains(&k) && prev[k as usize] <= 2
 }
 
 
@@ -227,14 +248,19 @@ pub fn long_near_misses(shard: usize, nshards: usize, f: &mut dyn FnMut(Triple, 
 		}
 		true
 	};
-	for len in 1..=300usize {
+	let mut lens: Vec<usize> = (1..=300usize).collect();
+	lens.extend([1000, 2047, 2048, 2049, 4090, 4093, 4094, 4095, 4096, 4097, 4098, 8191, 8192, 8193, 16_384, 65_535, 65_536, 65_537]);
+	for len in lens {
 		let plain = format!("A{}", "a".repeat(len));
 		let enc = format!("%41{}", "a".repeat(len));
 		let mut last = enc.clone();
 		last.pop();
 		last.push('b');
 		let enc_last = format!("%41{}%61", "a".repeat(len - 1));
-		if !emit(&enc, &plain, &last, f) || !emit(&plain, &enc_last, &enc, f) {
+		let more_enc = format!("{plain}%62");
+		let more_nul = format!("{plain}%00");
+		let more_lit = format!("{plain}b");
+		if !emit(&enc, &plain, &last, f) || !emit(&plain, &enc_last, &enc, f) || !emit(&plain, &more_enc, &more_lit, f) || !emit(&more_nul, &plain, &enc, f) {
 			return vec![];
 		}
 	}
@@ -250,5 +276,71 @@ pub fn long_near_misses(shard: usize, nshards: usize, f: &mut dyn FnMut(Triple, 
 			}
 		}
 	}
-	vec!["long values (every length 1..=300) equal once decoded or differing only in the last character, as segment, path, query, fragment, host, user info, reference and full value; for lengths 100 and 290 the difference at every position"]
+	// every triple of ports from a pool whose numeric, textual and length orders disagree, as port, authority and
+	// reference (an order must be transitive whatever it is based on)
+	let mut j = 0usize;
+	let ports = ["", "0", "7", "10", "80", "080", "443", "8080", "65535", "65536", "99999", "100000", "18446744073709551616"];
+	for a in ports {
+		for b in ports {
+			for c in ports {
+				for (kind, shape) in [(Kind::Port, 0u8), (Kind::Authority, 1), (Kind::Reference, 2), (Kind::Full, 3)] {
+					j += 1;
+					if j % nshards != shard {
+						continue;
+					}
+					let mk = |p: &str| match shape {
+						0 => p.to_string(),
+						1 => format!("u@h:{p}"),
+						2 => format!("//h:{p}/x"),
+						_ => format!("s://h:{p}"),
+					};
+					let fam = if j % 2 == 0 { Fam::Uri } else { Fam::Iri };
+					if !f(Triple { fam, kind, a: mk(a), b: mk(b), c: mk(c) }, true) {
+						return vec![];
+					}
+				}
+			}
+		}
+	}
+	vec!["every triple of 13 ports (numeric, textual and length order disagree) as port, authority, reference and full value", "long values (every length 1..=300 and around 2 KiB / 4 KiB / 8 KiB / 16 KiB / 64 KiB) equal once decoded or differing only in the last character, as segment, path, query, fragment, host, user info, reference and full value; for lengths 100 and 290 the difference at every position"]
+}
+
+
+#[cfg(test)]
+mod near_tests {
+	fn plain(a: &str, b: &str) -> bool {
+		let a: Vec<char> = a.chars().collect();
+		let b: Vec<char> = b.chars().collect();
+		let mut prev: Vec<usize> = (0..=b.len()).collect();
+		for i in 1..=a.len() {
+			let mut cur = vec![i; b.len() + 1];
+			for j in 1..=b.len() {
+				let cost = if a[i - 1] == b[j - 1] { 0 } else { 1 };
+				cur[j] = (prev[j] + 1).min(cur[j - 1] + 1).min(prev[j - 1] + cost);
+			}
+			prev = cur;
+		}
+		prev[b.len()] <= 2
+	}
+	#[test]
+	fn banded_equals_plain() {
+		let alphabet = ['a', 'b', '/'];
+		let mut all = vec![String::new()];
+		for len in 1..=5 {
+			for m0 in 0..3usize.pow(len) {
+				let mut m = m0;
+				let mut s = String::new();
+				for _ in 0..len {
+					s.push(alphabet[m % 3]);
+					m /= 3;
+				}
+				all.push(s);
+			}
+		}
+		for x in &all {
+			for y in &all {
+				assert_eq!(super::near(x, y), plain(x, y), "{x:?} {y:?}");
+			}
+		}
+	}
 }
